@@ -93,9 +93,9 @@ theorem addrOf_good {j : Nat} (hj : j < N) : ∃ v, addrOf ss j = some v := by
   exact ⟨ss[j].pkg.address, by simp [addrOf, List.getElem?_eq_getElem hj']⟩
 
 /-- the "other" operand of a good address expression: an "unresolved expression" diagnostic (neither a label
-nor a number) or a 16-bit magnitude (a label's address or a number) -/
+nor a number) or a (signed, since batch B2) integer: a label's address or a number -/
 theorem addrOther_good {v : Value} (hv : v.Good N) :
-    addrOther ss v = .diag ∨ ∃ add, addrOther ss v = .ok add ∧ add ≤ 65535 := by
+    addrOther ss v = .diag ∨ ∃ add, addrOther ss v = .ok add := by
   obtain ⟨k, hk, hk1, hk2⟩ := hv.int
   unfold addrOther
   by_cases ha : v.isAddress = true
@@ -103,17 +103,19 @@ theorem addrOther_good {v : Value} (hv : v.Good N) :
     obtain ⟨x, hx, hxle⟩ := addrIntOf_good hlen hall (hk1 ha)
     dsimp only
     rw [hx]
-    exact Or.inr ⟨x, rfl, hxle⟩
+    exact Or.inr ⟨x, rfl⟩
   · rw [if_neg ha]
     by_cases hn : v.isNumeric = true
     · rw [if_pos hn, hk]
-      exact Or.inr ⟨k, rfl, hk2 (by simpa using ha)⟩
+      exact Or.inr ⟨_, rfl⟩
     · rw [if_neg hn]; exact Or.inl rfl
 
-/-- `calculate_address_offset` on a good address expression: no internal error, and a 16-bit magnitude -/
+/-- `calculate_address_offset` on a good address expression: no internal error, and the result has an `.int`
+(batch B2: with a signed constant `label * constant` may be a negative number of any magnitude, so the 16-bit
+bound of the earlier version is gone; it is no longer needed, the PCR distance is reduced modulo 65536) -/
 theorem addrOffset_good {l r : Value} {op : Char} {m : Mode} (hv : (Value.expr l r op m true).Good N) :
     addrOffset ss (.expr l r op m true) ≠ .internal ∧
-      ∀ x, addrOffset ss (.expr l r op m true) = .ok x → ∃ k, x.int? = some k ∧ k ≤ 65535 := by
+      ∀ x, addrOffset ss (.expr l r op m true) = .ok x → ∃ k, x.int? = some k := by
   obtain ⟨hl, hr, hab⟩ := hv
   obtain ⟨kl, hkl, hkl1, _⟩ := hl.int
   obtain ⟨kr, hkr, hkr1, _⟩ := hr.int
@@ -131,43 +133,30 @@ theorem addrOffset_good {l r : Value} {op : Char} {m : Mode} (hv : (Value.expr l
   obtain ⟨ai, hai, hailt⟩ := hai
   obtain ⟨a, ha, hale⟩ := addrIntOf_good hlen hall hailt
   rw [addrOffset_expr]
-  rcases addrOther_good hlen hall hoth with hd | ⟨add, hadd, haddle⟩
+  rcases addrOther_good hlen hall hoth with hd | ⟨add, hadd⟩
   · rw [hd]
     exact ⟨by simp, fun x h => by cases h⟩
   rw [hai, hadd]
   dsimp only
   rw [ha]
   dsimp only
-  unfold addrCombine
-  have hmul : (0 : Int) ≤ (a : Int) * (add : Int) := Int.mul_nonneg (by omega) (by omega)
-  have hdiv : (0 : Int) ≤ ((a / add : Nat) : Int) := Int.natCast_nonneg _
-  have key : ∀ z : Int, -65535 ≤ z →
-      (match numericOfInt z (some 4) .extended with | .ok nv => Outcome.ok nv | .error _ => .diag) ≠ .internal ∧
-      ∀ x, (match numericOfInt z (some 4) .extended with | .ok nv => Outcome.ok nv | .error _ => .diag) = .ok x →
-        ∃ k, x.int? = some k ∧ k ≤ 65535 := by
-    intro z hz
-    cases hn : numericOfInt z (some 4) .extended with
-    | error e => exact ⟨by simp, fun x h => by cases h⟩
-    | ok nv =>
-      refine ⟨by simp, fun x h => ?_⟩
-      cases h
-      exact (numericOfInt_good 0 hn hz).int_le (by omega)
-  generalize hzo : (if (op == '+') = true then some ((a : Int) + add)
-        else if (op == '-') = true then some (((a : Int) - add) % 65536)
-        else if (op == '*') = true then some ((a : Int) * add)
-        else if add = 0 then none else some ((a / add : Nat) : Int)) = zo
-  cases zo with
-  | none => exact ⟨by simp, fun x h => by cases h⟩
-  | some z =>
-    refine key z ?_
-    repeat' split at hzo
-    all_goals first
-      | (cases hzo; done)
-      | (cases hzo; omega)
+  refine ⟨addrCombine_ne_internal _ _ _, fun x hx => ?_⟩
+  unfold addrCombine at hx
+  dsimp only at hx
+  split at hx
+  · cases hx
+  · split at hx
+    · rename_i nv hnv
+      cases hx
+      unfold numericOfInt at hnv
+      split at hnv
+      · cases hnv
+      · cases hnv; exact ⟨_, rfl⟩
+    · cases hx
 
-/-- the target of a PCR statement: a diagnostic or a 16-bit magnitude -/
+/-- the target of a PCR statement: a diagnostic or a number -/
 theorem fixRel_good {s : Stmt} (hs : s ∈ ss) (hn : s.pkg.needsRes = true) :
-    fixRel ss s = .diag ∨ ∃ r, fixRel ss s = .ok r ∧ r ≤ 65535 := by
+    fixRel ss s = .diag ∨ ∃ r, fixRel ss s = .ok r := by
   have hsf := hall s hs
   have hch : s.pkg.choices ≠ [] := by
     intro h0
@@ -181,10 +170,10 @@ theorem fixRel_good {s : Stmt} (hs : s ∈ ss) (hn : s.pkg.needsRes = true) :
         | some t => (match addrIntOf ss t with | some a => Outcome.ok a | none => .internal)
         | none => .internal) = .diag ∨ ∃ r, (match s.pkg.additional.int? with
         | some t => (match addrIntOf ss t with | some a => Outcome.ok a | none => .internal)
-        | none => .internal) = .ok r ∧ r ≤ 65535 := by
+        | none => .internal) = .ok r := by
       obtain ⟨a, ha, hale⟩ := addrIntOf_good hlen hall htlt
       rw [ht]; dsimp only; rw [ha]
-      exact Or.inr ⟨a, rfl, hale⟩
+      exact Or.inr ⟨a, rfl⟩
     unfold fixRel
     simp only [hidx]
     cases hadd : s.pkg.additional with
@@ -197,10 +186,10 @@ theorem fixRel_good {s : Stmt} (hs : s ∈ ss) (hn : s.pkg.needsRes = true) :
         dsimp only
         cases ho : addrOffset ss (.expr l r op m true) with
         | ok v =>
-          obtain ⟨k, hk, hkle⟩ := hok v ho
+          obtain ⟨k, hk⟩ := hok v ho
           dsimp only
           rw [hk]
-          exact Or.inr ⟨k, rfl, hkle⟩
+          exact Or.inr ⟨k, rfl⟩
         | diag => exact Or.inl rfl
         | internal => exact absurd ho hni
         | diverged => exact absurd ho (addrOffset_not_diverged _ _)
@@ -212,10 +201,12 @@ theorem fixStep3_good {i : Nat} {s : Stmt} (hs : ss[i]? = some s) (hn : s.pkg.ne
   obtain ⟨st, hst, _⟩ := addrIntOf_good hlen hall hi
   unfold fixStep3
   rw [if_pos hn, hst]
-  rcases fixRel_good hlen hall (List.mem_of_getElem? hs) hn with h | ⟨r, h, hr⟩
+  rcases fixRel_good hlen hall (List.mem_of_getElem? hs) hn with h | ⟨r, h⟩
   · rw [h]; simp
   · rw [h]
     dsimp only
+    split
+    · simp
     have hj : pcrJump s r st ≤ 65535 := by
       unfold pcrJump
       dsimp only
